@@ -48,6 +48,8 @@ THEOREMS = [
     'C02_sq_positive_g_flipped',
     'C02_sq_positive_g_refuted',
     'C02_convert_any_axis',
+    'C02_C_K_any_axis_locus_sense',
+    'C02_number_items_spec',
     'C02_spec_sanity',
 ]
 
@@ -159,7 +161,23 @@ def gen_three_points(rng):
         elif mode < 0.45:       # D = C = B = 0: the plane x = 0
             pts = [[0.0, dy(rng), dy(rng)], [0.0, dy(rng), dy(rng)],
                    [0.0, dy(rng), dy(rng)]]
-        elif mode < 0.6:        # axis-aligned planes off the origin
+        elif mode < 0.57:       # any orientation, tiny offset from the origin:
+            # |D|/|n| = 2^-k |n| spans the whole range between the code's
+            # 1e-14 and ordinary sizes (a mis-set threshold shows here)
+            nrm = [float(rng.randint(-3, 3)) for _ in range(3)]
+            if not any(nrm):
+                nrm[rng.randrange(3)] = 1.0
+            e = [0.0, 0.0, 0.0]
+            e[min(range(3), key=lambda i: abs(nrm[i]))] = 1.0
+            u = cross(nrm, e)
+            v = cross(nrm, u)
+            t = rng.choice([1.0, -1.0]) * 2.0 ** -rng.randint(5, 36)
+            pts = []
+            for _ in range(3):
+                a, b = rng.randint(-4, 4), rng.randint(-4, 4)
+                pts.append([t * nrm[i] + a * u[i] + b * v[i]
+                            for i in range(3)])
+        elif mode < 0.68:       # axis-aligned planes off the origin
             k = rng.randrange(3)
             c = dy(rng, -4, 4)
             pts = []
@@ -603,6 +621,46 @@ WITNESSES = [
 ]
 
 
+# minimised cases kept from defects, mutation self-tests and branch triggers;
+# tied and swept first on every run
+T20 = 2.0 ** -20
+CORPUS = [
+    ('x', [0.0, 0.0, 1.0, 1.0]),          # first point on the apex (old defect)
+    ('z', [0.0, 0.0, 1.0, 1.0]),
+    ('y', [0.0, 1.0, 2.0, 3.0]),          # 'y' was missing from the table
+    ('y', [2.0, 1.0, 0.0, 0.0]),          # second point on the apex, x2 < x1
+    ('x', [1.0, 1.0, 0.0, 0.0]),
+    ('y', [1.0, 2.0, 3.0, 2.0]),          # cylinder form: radius, not abscissa
+    ('k', [0.0, 0.0, 0.0, 1.0, 0.0, 0.0, -1.0, 1.0]),   # anti-parallel axis
+    ('k', [1.0, 2.0, 3.0, 0.5, 0.0, -1.0, 0.0, -1.0]),
+    ('k', [1.0, 2.0, 3.0, 0.5, -1.0, 0.0, 0.0, 1.0]),
+    ('kz', [0.0, 1.0, -1.0]),
+    ('kz', [1.0, 4.0]),                   # t^2 = 4: the square root matters
+    ('k/y', [1.0, 2.0, 3.0, 0.25, 1.0]),
+    ('k/y', [1.0, 2.0, 3.0, 0.25]),
+    ('p', [0.0, 0.0, -1.0, 1.0, 0.0, -1.0, 0.0, 1.0, -1.0]),   # z = -1
+    ('p', [0.0, 0.0, -1.0, 0.0, 1.0, -1.0, 1.0, 0.0, -1.0]),
+    ('p', [0.0, 0.0, 0.0, 1.0, 0.0, 0.0, 0.0, 1.0, 0.0]),      # D = 0
+    ('p', [0.0, 0.0, 0.0, 0.0, 1.0, 0.0, 1.0, 0.0, 0.0]),
+    ('p', [0.0, 0.0, 0.0, 1.0, 0.0, 0.0, 0.0, 0.0, 1.0]),      # D = C = 0
+    ('p', [0.0, 0.0, 0.0, 0.0, 0.0, 1.0, 1.0, 0.0, 0.0]),
+    ('p', [0.0, 0.0, 0.0, 0.0, 1.0, 0.0, 0.0, 0.0, 1.0]),      # D = C = B = 0
+    ('p', [0.0, 0.0, 0.0, 0.0, 0.0, 1.0, 0.0, 1.0, 0.0]),
+    ('p', [0.0, 0.0, -T20, 1.0, 0.0, -T20, 0.0, 1.0, -T20]),   # small D < 0
+    ('p', [0.0, 0.0, T20, 0.0, 1.0, T20, 1.0, 0.0, T20]),
+    ('p', [3.0, 0.0, 0.0, 6.0]),          # non-unit normal
+    ('p', [0.0, -2.0, 0.0, 3.0]),
+    ('p', [1.0, 2.0, -2.0, -3.0]),
+    ('tx', [1.0, 2.0, 3.0, 4.0, 1.0]),    # five entries
+    ('ty', [1.0, 2.0, 3.0, 4.0, 1.0, 0.5]),
+    ('c/y', [1.0, 2.0, 3.0]),
+    ('c/x', [1.0, 2.0, 3.0]),
+    ('c/z', [1.0, 2.0, 3.0]),
+    ('sq', [1.0, 2.0, 3.0, 0.5, -0.25, 0.75, -4.0, 1.0, -2.0, 3.0]),
+    ('gq', [1.0, 2.0, 3.0, 0.5, -0.25, 0.75, -4.0, 1.0, -2.0, -3.0]),
+]
+
+
 def admissible(mn, prm):
     '''Cards inside the quantifier of the property (MCNP-admissible): used to
     decide which generated cards are swept.'''
@@ -738,7 +796,7 @@ def run(res, tier, seed, proofs_ok):
                                  f'witness of {cls}')
 
     # ---- 2. cards: ties card / mcnp, and the sweep ----
-    cards = []
+    cards = [(mn, list(prm), 'corpus', None) for mn, prm in CORPUS]
     for tag in ALL_TAGS:
         for _ in range(per_tag):
             mn, prm = gen_card(rng, tag)
